@@ -3,6 +3,7 @@ CONSTANTS
  Family = "tiny"
  MaxMid = 11
  MaxTiny = 3
+ CarryTail = 1
  CarryLens = {}
 INIT Init
 NEXT Next
